@@ -24,7 +24,7 @@ deriving DecidableEq, Repr
 structure Rec (ν : Type) where
   ts : Time
   v : ν
-deriving Repr
+deriving Repr, DecidableEq
 
 /-- `timeseries.AlignmentPeriod`: period start / end of an instant, and the Location of the returned times. -/
 structure Period where
